@@ -291,6 +291,13 @@ def r_attr(ctx, tenv) -> None:
     sch = prog.func(f'{FRAME}:Source.schema')
     text = core.src(sch.node)
     ctx.check('enumerate(self.features)' in text and '.kind' in text, 'C07.schema', sch, 'schema lists the output features in order with their kinds', sch.node, key='schema:order')
+    # ... in *one pass*: the field mapping handed to the schema class is a single unfiltered comprehension (or loop) over
+    # enumerate(self.features); a union of a "named" and an "anonymous" part lists all named fields first
+    body = sch.node
+    merges = [n for n in core.walk_local(body) if (isinstance(n, ast.BinOp) and isinstance(n.op, ast.BitOr) and any(isinstance(x, (ast.Dict, ast.DictComp, ast.Name)) for x in (n.left, n.right))) or (isinstance(n, ast.Dict) and any(k is None for k in n.keys)) or (isinstance(n, ast.Call) and isinstance(n.func, ast.Attribute) and n.func.attr == 'update')]
+    filtered = [n for n in core.walk_local(body) if isinstance(n, (ast.DictComp, ast.ListComp, ast.GeneratorExp, ast.SetComp)) and any(g.ifs for g in n.generators) and 'features' in core.src(n)]
+    passes = [n for n in core.walk_local(body) if (isinstance(n, (ast.DictComp, ast.ListComp, ast.GeneratorExp)) and any('self.features' in core.src(g.iter) for g in n.generators)) or (isinstance(n, ast.For) and 'self.features' in core.src(n.iter))]
+    ctx.check(not merges and not filtered and len(passes) == 1, 'C07.schema', sch, f'the schema namespace is built in one unfiltered pass over the features - no merge of partial mappings ({[core.src(m)[:40] for m in merges + filtered]}; passes: {len(passes)})', (merges + filtered + [sch.node])[0], key='schema:one-pass')
 
 
 def element_scope(ctx) -> None:
